@@ -228,7 +228,12 @@ pub fn calc_gas_postcost_info<ApChangeVarValue: Fn(StatementIdx) -> usize>(
                 &InvocationCostInfoProviderForEqGen {
                     type_sizes: &program_info.type_sizes,
                     token_usages: |token_type| {
-                        precost_gas_info.variable_values[&(idx, token_type)].into_or_panic()
+                        precost_gas_info
+                            .variable_values
+                            .get(&(idx, token_type))
+                            .copied()
+                            .unwrap_or_default()
+                            .into_or_panic()
                     },
                     ap_change_var_value: || ap_change_var_value(idx),
                 },
